@@ -87,45 +87,128 @@ Proof. exact observer_converges. Qed.
 (* ====================================================================== Future *)
 Import Fut.
 
+(* Vocabulary (Conc/Future.v): fx s = the field f.x, fclosed s = f.c is closed, ffilled s = the field f.filled,
+   fwinner s = (ghost) the goroutine whose CompareAndSwap on f.filled succeeded.  ANY number of Fill calls. *)
 Theorem C18_future :
   forall cfg nctx ng s,
-    FutP.at_most_one_fill cfg ->              (* Fill's documented precondition: filled at most once *)
     reachable Fut.qstep (Fut.init cfg nctx ng) s ->
-  (* (a) a Wait that returns (whether it started before or after Fill) returns the filled value *)
+  (* (a) a Wait that returns (whether it started before or after Fill) returns the value of the one
+     Fill call that won, after the channel was closed *)
   (forall t v s', Fut.qstep s (LRetWait t v) = Some s' ->
                   fclosed s = true /\ fx s = v /\
-                  exists tf xf, nth_error (Fut.ths s) tf = Some xf /\ t_kind xf = KFill v) /\
+                  exists tw xw, fwinner s = Some tw /\ nth_error (Fut.ths s) tw = Some xw /\ t_kind xw = KFill v) /\
   (* (b) a WaitContext that returns without error returns that value; with an error it returns the
      zero value and its context is done *)
   (forall t v e s', Fut.qstep s (LRetWaitCtx t v e) = Some s' ->
      (e = false /\ fclosed s = true /\ fx s = v /\
-      exists tf xf, nth_error (Fut.ths s) tf = Some xf /\ t_kind xf = KFill v) \/
+      exists tw xw, fwinner s = Some tw /\ nth_error (Fut.ths s) tw = Some xw /\ t_kind xw = KFill v) \/
      (e = true /\ v = 0%Z /\
       exists x c, nth_error (Fut.ths s) t = Some x /\ t_kind x = KWaitCtx c /\ ctx_done s c = true)) /\
-  (* (c) once filled, the value never changes and the channel stays closed *)
+  (* (c) once filled, the value never changes, the channel stays closed and the winner stays the winner:
+     after one step and after any run, whatever further Fill calls are made *)
   (fclosed s = true ->
-   (exists tf xf, nth_error (Fut.ths s) tf = Some xf /\ t_kind xf = KFill (fx s)) /\
-   forall l s', Fut.qstep s l = Some s' -> fx s' = fx s /\ fclosed s' = true) /\
-  (* (d) progress: a waiter has an enabled step once the future is filled, a WaitContext caller also
-     once its context is done; after the select every step up to the return is enabled *)
+   (exists tw xw, fwinner s = Some tw /\ nth_error (Fut.ths s) tw = Some xw /\ t_kind xw = KFill (fx s)) /\
+   (forall l s', Fut.qstep s l = Some s' -> fx s' = fx s /\ fclosed s' = true /\ fwinner s' = fwinner s) /\
+   (forall ls s', run Fut.qstep s ls = Some s' -> fx s' = fx s /\ fclosed s' = true /\ fwinner s' = fwinner s)) /\
+  (* (d) progress: every step of Fill is always enabled (Fill never blocks); a waiter has an enabled step
+     once the future is filled; the first select of WaitContext never blocks (exactly one arm is enabled);
+     at the second select a WaitContext caller has an enabled step once the future is filled and also once
+     its context is done; after the select every step up to the return is enabled *)
   (forall t x, nth_error (Fut.ths s) t = Some x ->
+     (Fut.t_pc x = PFillCalled -> exists s', Fut.step s (TCas t) = Some s') /\
+     (Fut.t_pc x = PFillWon -> exists s', Fut.step s (TWrite t) = Some s') /\
+     (Fut.t_pc x = PFillWritten -> exists s', Fut.step s (TCloseF t) = Some s') /\
+     (Fut.t_pc x = PFillClosed -> exists s', Fut.step s (LRetFill t) = Some s') /\
+     (Fut.t_pc x = PFillPanic -> exists s', Fut.step s (LPanicFill t) = Some s') /\
      (Fut.t_pc x = PWaitCalled -> fclosed s = true -> exists s', Fut.step s (TRecv t) = Some s') /\
-     (Fut.t_pc x = PCtxCalled -> fclosed s = true -> exists s', Fut.step s (TSelF t) = Some s') /\
-     (forall c, Fut.t_pc x = PCtxCalled -> t_kind x = KWaitCtx c -> ctx_done s c = true ->
+     (Fut.t_pc x = PCtxCalled ->
+        (fclosed s = true -> (exists s', Fut.step s (TPollF t) = Some s') /\ Fut.step s (TPollD t) = None) /\
+        (fclosed s = false -> (exists s', Fut.step s (TPollD t) = Some s') /\ Fut.step s (TPollF t) = None)) /\
+     (Fut.t_pc x = PCtxSel -> fclosed s = true -> exists s', Fut.step s (TSelF t) = Some s') /\
+     (forall c, Fut.t_pc x = PCtxSel -> t_kind x = KWaitCtx c -> ctx_done s c = true ->
                 exists s', Fut.step s (TSelCtx t) = Some s') /\
      (Fut.t_pc x = PRecvd -> exists s', Fut.step s (TRead t) = Some s') /\
      (forall v, Fut.t_pc x = PRead v -> t_kind x = KWait -> exists s', Fut.step s (LRetWait t v) = Some s') /\
      (forall v c, Fut.t_pc x = PRead v -> t_kind x = KWaitCtx c -> exists s', Fut.step s (LRetWaitCtx t v false) = Some s') /\
      (forall c, Fut.t_pc x = PCtxErr -> t_kind x = KWaitCtx c -> exists s', Fut.step s (LRetWaitCtx t 0%Z true) = Some s')) /\
-  (* (e) with a single Fill nothing panics *)
-  (forall t x, nth_error (Fut.ths s) t = Some x -> Fut.t_pc x <> PFillPanic).
+  (* (e) with a single Fill (Fill's documented precondition) nothing panics *)
+  (FutP.at_most_one_fill cfg -> forall t x, nth_error (Fut.ths s) t = Some x -> Fut.t_pc x <> PFillPanic) /\
+  (* (f) exactly one Fill wins.  f.filled is set iff there is a winner, which is a Fill call; a closed
+     channel implies it *)
+  ((ffilled s = true <-> fwinner s <> None) /\ (fclosed s = true -> ffilled s = true) /\
+   (forall tw, fwinner s = Some tw -> exists xw, nth_error (Fut.ths s) tw = Some xw /\ FutP.is_fill (t_kind xw) = true)) /\
+  (* the CompareAndSwap: the first one makes its caller the winner; every later one panics at once and
+     changes neither f.x nor the channel nor the winner *)
+  (forall t s', Fut.qstep s (TCas t) = Some s' ->
+     exists x, nth_error (Fut.ths s) t = Some x /\ Fut.t_pc x = PFillCalled /\
+     ((ffilled s = false /\ fwinner s = None /\ ffilled s' = true /\ fwinner s' = Some t /\
+       nth_error (Fut.ths s') t = Some (Fut.set_pc x PFillWon)) \/
+      (ffilled s = true /\ (exists tw, fwinner s = Some tw /\ tw <> t) /\ ffilled s' = true /\
+       fwinner s' = fwinner s /\ nth_error (Fut.ths s') t = Some (Fut.set_pc x PFillPanic))) /\
+     fx s' = fx s /\ fclosed s' = fclosed s) /\
+  (* only the winner is ever past the CompareAndSwap (so no other Fill call writes or closes); a call that
+     panics is not the winner (the winner never panics) *)
+  (forall t x, nth_error (Fut.ths s) t = Some x ->
+     (Fut.t_pc x = PFillWon \/ Fut.t_pc x = PFillWritten \/ Fut.t_pc x = PFillClosed -> fwinner s = Some t) /\
+     (Fut.t_pc x = PFillPanic -> exists tw, fwinner s = Some tw /\ tw <> t)) /\
+  (* f.x is written only by the winner's write step, with its value, while the channel is still open *)
+  (forall l s', Fut.qstep s l = Some s' -> fx s' <> fx s ->
+     exists tw xw, l = TWrite tw /\ fwinner s = Some tw /\ nth_error (Fut.ths s) tw = Some xw /\
+                   t_kind xw = KFill (fx s') /\ fclosed s = false) /\
+  (* the Fill that returns is the winner's (the future then holds its value); a Fill that panics is another one's *)
+  (forall t s', Fut.qstep s (LRetFill t) = Some s' ->
+     fwinner s = Some t /\ fclosed s = true /\ exists x, nth_error (Fut.ths s) t = Some x /\ t_kind x = KFill (fx s)) /\
+  (forall t s', Fut.qstep s (LPanicFill t) = Some s' -> exists tw, fwinner s = Some tw /\ tw <> t).
 Proof. exact FutP.future_correct. Qed.
 
-(* a second Fill panics at its close (after having overwritten f.x): "Panics if f has already been filled" *)
+(* "Returns immediately if f is already filled": a WaitContext whose call starts in a state in which the
+   channel is closed returns, along every run, the filled value and no error, never the context error,
+   whatever the state of its context *)
+Theorem C18_future_late_waitcontext :
+  forall cfg nctx ng s t c s1 ls s2 v e s3,
+    reachable Fut.qstep (Fut.init cfg nctx ng) s -> fclosed s = true ->
+    Fut.qstep s (LCallWaitCtx t c) = Some s1 -> run Fut.qstep s1 ls = Some s2 ->
+    Fut.qstep s2 (LRetWaitCtx t v e) = Some s3 ->
+    e = false /\ v = fx s /\ fx s2 = fx s.
+Proof. exact FutP.late_waitcontext. Qed.
+
+(* "Panics if f has already been filled": a Fill of a filled future panics at its CompareAndSwap, before
+   it writes anything (f.x, the channel and the winner are unchanged); holds in every state *)
 Theorem C18_future_second_fill_panics :
-  forall s t s', fclosed s = true -> Fut.step s (TCloseF t) = Some s' ->
-                 exists x', nth_error (Fut.ths s') t = Some x' /\ Fut.t_pc x' = PFillPanic.
-Proof. exact FutP.second_close_panics. Qed.
+  forall s t s', ffilled s = true -> Fut.step s (TCas t) = Some s' ->
+                 (exists x', nth_error (Fut.ths s') t = Some x' /\ Fut.t_pc x' = PFillPanic) /\
+                 fx s' = fx s /\ fclosed s' = fclosed s /\ ffilled s' = true /\ fwinner s' = fwinner s.
+Proof. exact FutP.second_fill_panics. Qed.
+
+(* The code before the repair ([Fut.step_orig]: Fill = f.x = x; close(f.c), WaitContext = the two-arm
+   select only) violates the property: the statements
+     (c)  fclosed s = true -> forall l s', step_orig s l = Some s' -> fx s' = fx s
+     late forall ..., fclosed s = true -> step_orig s (LCallWaitCtx t c) = Some s1 -> ... -> e = false
+   are FALSE for it. *)
+Theorem C18_future_orig_fill_refuted :
+  exists s s1 s2,
+    run Fut.step_orig (Fut.init FutP.orig_fill_cfg 0 0) FutP.orig_fill_run1 = Some s /\
+    fclosed s = true /\ fx s = 1%Z /\
+    Fut.step_orig s (TWrite 1) = Some s1 /\ fx s1 = 2%Z /\
+    run Fut.step_orig s1 FutP.orig_fill_run2 = Some s2 /\
+    GoLTSProofs.trace Fut.lab Fut.lab Fut.vis (FutP.orig_fill_run1 ++ TWrite 1 :: FutP.orig_fill_run2) =
+      [Fut.LSpawn 0; Fut.LSpawn 1; Fut.LSpawn 2; Fut.LSpawn 3; LCallFill 0 1%Z; LRetFill 0; LCallWait 2; LRetWait 2 1%Z;
+       LCallFill 1 2%Z; LPanicFill 1; LCallWait 3; LRetWait 3 2%Z] /\
+    Fut.accepts_history FutP.orig_fill_cfg 0 0
+      [Fut.LSpawn 0; Fut.LSpawn 1; Fut.LSpawn 2; Fut.LSpawn 3; LCallFill 0 1%Z; LRetFill 0; LCallWait 2; LRetWait 2 1%Z;
+       LCallFill 1 2%Z; LPanicFill 1; LCallWait 3; LRetWait 3 2%Z] = false.
+Proof. exact FutP.orig_fill_refuted. Qed.
+
+Theorem C18_future_orig_waitcontext_refuted :
+  exists s s1 s2 s3,
+    run Fut.step_orig (Fut.init FutP.orig_wctx_cfg 1 0) FutP.orig_wctx_run1 = Some s /\
+    fclosed s = true /\ fx s = 7%Z /\
+    Fut.step_orig s (LCallWaitCtx 1 0) = Some s1 /\
+    run Fut.step_orig s1 FutP.orig_wctx_run2 = Some s2 /\
+    Fut.step_orig s2 (LRetWaitCtx 1 0%Z true) = Some s3 /\
+    Fut.accepts_history FutP.orig_wctx_cfg 1 0
+      [Fut.LSpawn 0; LCallFill 0 7%Z; LRetFill 0; LCancel 0; Fut.LSpawn 1; LCallWaitCtx 1 0; LRetWaitCtx 1 0%Z true] = false.
+Proof. exact FutP.orig_waitcontext_refuted. Qed.
 
 (* ====================================================================== Lazy *)
 Import Lazy.
@@ -214,12 +297,45 @@ Example C18_future_history_runs :
      LCallWaitCtx 3 1; LRetWaitCtx 3 7%Z false; Fut.LQuiesce; Fut.LSpawn 4; LCallWait 4; LRetWait 4 7%Z; Fut.LQuiesce] = true.
 Proof. vm_compute. reflexivity. Qed.
 
-(* two Fills: the model reaches the panic *)
+(* two Fills (recorded shape: one returns, the other panics; every waiter, earlier or later, gets the winner's value) *)
+Definition ex_fut_cfg2 : list (option nat * kind) :=
+  [(Some 0, KFill 1%Z); (Some 0, KFill 2%Z); (None, KWait); (None, KWait); (None, KWaitCtx 0)].
+
+Example C18_future_double_fill_history_runs :
+  Fut.accepts_history ex_fut_cfg2 1 1
+    [Fut.LSpawn 2; LCallWait 2; Fut.LSpawn 0; Fut.LSpawn 1; Fut.LQuiesce; Fut.LRelease 0; LCallFill 1 2%Z; LCallFill 0 1%Z;
+     LPanicFill 0; LRetFill 1; LRetWait 2 2%Z; Fut.LQuiesce; Fut.LSpawn 3; LCallWait 3; LRetWait 3 2%Z;
+     LCancel 0; Fut.LQuiesce; Fut.LSpawn 4; LCallWaitCtx 4 0; LRetWaitCtx 4 2%Z false; Fut.LQuiesce] = true.
+Proof. vm_compute. reflexivity. Qed.
+
+(* two Fills: the loser panics at its CompareAndSwap and f.x keeps the winner's value; the hypotheses of
+   C18_future (a)/(c), C18_future_second_fill_panics and C18_future_late_waitcontext are satisfiable *)
 Example C18_future_double_fill_run :
   exists s x, run Fut.step (Fut.init [(None, KFill 1%Z); (None, KFill 2%Z)] 0 0)
-                  [Fut.LSpawn 0; Fut.LSpawn 1; LCallFill 0 1%Z; LCallFill 1 2%Z; TWrite 0; TWrite 1; TCloseF 0; TCloseF 1] = Some s
-              /\ nth_error (Fut.ths s) 1 = Some x /\ Fut.t_pc x = PFillPanic /\ fx s = 2%Z.
+                  [Fut.LSpawn 0; Fut.LSpawn 1; LCallFill 0 1%Z; LCallFill 1 2%Z; TCas 0; TCas 1; TWrite 0; TCloseF 0] = Some s
+              /\ nth_error (Fut.ths s) 1 = Some x /\ Fut.t_pc x = PFillPanic /\ fx s = 1%Z /\ fclosed s = true
+              /\ fwinner s = Some 0.
 Proof. eexists. eexists. vm_compute. repeat split; reflexivity. Qed.
+
+(* a late WaitContext with a cancelled context: the run of C18_future_late_waitcontext exists, and the
+   context error is not a possible outcome *)
+Example C18_future_late_waitcontext_run :
+  exists s s1 s2 s3,
+    run Fut.qstep (Fut.init [(None, KFill 7%Z); (None, KWaitCtx 0)] 1 0)
+        [Fut.LSpawn 0; LCallFill 0 7%Z; TCas 0; TWrite 0; TCloseF 0; LRetFill 0; LCancel 0; TCancelEff 0; Fut.LQuiesce; Fut.LSpawn 1] = Some s
+    /\ fclosed s = true /\ ctx_done s 0 = true
+    /\ Fut.qstep s (LCallWaitCtx 1 0) = Some s1 /\ run Fut.qstep s1 [TPollF 1; TRead 1] = Some s2
+    /\ Fut.qstep s2 (LRetWaitCtx 1 7%Z false) = Some s3 /\ Fut.qstep s2 (LRetWaitCtx 1 0%Z true) = None.
+Proof. eexists. eexists. eexists. eexists. vm_compute. repeat split; reflexivity. Qed.
+
+Example C18_future_late_waitcontext_history :
+  Fut.accepts_history [(None, KFill 7%Z); (None, KWaitCtx 0)] 1 0
+    [Fut.LSpawn 0; LCallFill 0 7%Z; LRetFill 0; LCancel 0; Fut.LQuiesce; Fut.LSpawn 1; LCallWaitCtx 1 0;
+     LRetWaitCtx 1 7%Z false; Fut.LQuiesce] = true /\
+  Fut.accepts_history [(None, KFill 7%Z); (None, KWaitCtx 0)] 1 0
+    [Fut.LSpawn 0; LCallFill 0 7%Z; LRetFill 0; LCancel 0; Fut.LQuiesce; Fut.LSpawn 1; LCallWaitCtx 1 0;
+     LRetWaitCtx 1 0%Z true] = false.
+Proof. vm_compute. split; reflexivity. Qed.
 
 Example C18_lazy_history_runs :
   Lazy.accepts_history [(Some 0, 1); (Some 0, 1); (Some 0, 2); (None, 1)] true 100%Z 1
@@ -261,7 +377,10 @@ Proof. split; vm_compute; reflexivity. Qed.
 Print Assumptions C18_value_is_latest.
 Print Assumptions C18_observer_converges.
 Print Assumptions C18_future.
+Print Assumptions C18_future_late_waitcontext.
 Print Assumptions C18_future_second_fill_panics.
+Print Assumptions C18_future_orig_fill_refuted.
+Print Assumptions C18_future_orig_waitcontext_refuted.
 Print Assumptions C18_lazy.
 Print Assumptions C18_map_refines_syncmap.
 Print Assumptions C18_map_old_code_refuted.
